@@ -4,7 +4,7 @@
 #  45 baseline tests pass, (3) the demonstration fails.  usage: seed_verify.sh <seed_out_dir>
 set -uo pipefail
 SRC="$1"
-W=/tmp/verify_seed
+W=${VERIFY_SEED_DIR:-/tmp/verify_seed}
 if [ ! -d "$W" ]; then git -C /repo worktree add -q "$W" HEAD || exit 2; fi
 cd "$W" || exit 2
 git checkout -q -- . ; git clean -qfd -e target
@@ -41,16 +41,16 @@ TESTDIR=crates/$CRATE/tests
 fi
 fi
 echo "== demo on the unchanged tree: $RUN"
-if $RUN > /tmp/verify_seed_1.log 2>&1; then echo "   passes"; else echo "   FAILS on the unchanged tree"; tail -20 /tmp/verify_seed_1.log; exit 1; fi
+if $RUN > /tmp/verify_seed${LANE_TAG:-}_1.log 2>&1; then echo "   passes"; else echo "   FAILS on the unchanged tree"; tail -20 /tmp/verify_seed${LANE_TAG:-}_1.log; exit 1; fi
 git apply "$SRC/patch.diff" || { echo "patch does not apply"; exit 1; }
 echo "== demo with the change"
-if $RUN > /tmp/verify_seed_2.log 2>&1; then echo "   still passes: not a demonstration"; exit 1; else grep -E "test result|panicked" /tmp/verify_seed_2.log | head -3; fi
+if $RUN > /tmp/verify_seed${LANE_TAG:-}_2.log 2>&1; then echo "   still passes: not a demonstration"; exit 1; else grep -E "test result|panicked" /tmp/verify_seed${LANE_TAG:-}_2.log | head -3; fi
 rm -rf "$TESTDIR"; [ -n "$PPDEMO" ] && rm -rf pp_demo
-[ -n "${LIBDEMO:-}" ] && { head -n -3 crates/$CRATE/src/lib.rs > /tmp/verify_seed_lib.rs && cp /tmp/verify_seed_lib.rs crates/$CRATE/src/lib.rs; }
+[ -n "${LIBDEMO:-}" ] && { head -n -3 crates/$CRATE/src/lib.rs > /tmp/verify_seed${LANE_TAG:-}_lib.rs && cp /tmp/verify_seed${LANE_TAG:-}_lib.rs crates/$CRATE/src/lib.rs; }
 echo "== baseline suite with the change"
-cargo test --workspace --no-fail-fast --offline > /tmp/verify_seed_3.log 2>&1
-PASSED=$(grep -E "^test result: ok" /tmp/verify_seed_3.log | sed 's/.*ok\. \([0-9]*\) passed.*/\1/' | paste -sd+ | bc)
-FAILED=$(grep -cE "^test result: FAILED|^error" /tmp/verify_seed_3.log)
+cargo test --workspace --no-fail-fast --offline > /tmp/verify_seed${LANE_TAG:-}_3.log 2>&1
+PASSED=$(grep -E "^test result: ok" /tmp/verify_seed${LANE_TAG:-}_3.log | sed 's/.*ok\. \([0-9]*\) passed.*/\1/' | paste -sd+ | bc)
+FAILED=$(grep -cE "^test result: FAILED|^error" /tmp/verify_seed${LANE_TAG:-}_3.log)
 echo "   passed=$PASSED failed_or_error_lines=$FAILED"
 git checkout -q -- . ; git clean -qfd -e target
 [ "$PASSED" = "45" ] && [ "$FAILED" = "0" ] || exit 1
